@@ -22,6 +22,7 @@ from sim.board import Board
 from sim.entrymon import EntryMonitor
 from sim.models import mpu as MPU
 from sim.monitors import RangeMonitor
+from sim.mputap import TranslateTap
 from scenarios.c12 import ReturnChecker, ViewRecorder, build_program_case, fault_free_ticks
 
 PROPERTY = 'C14'
@@ -353,6 +354,7 @@ def run_oneshot(core, meta, bg=False):
     rc = ReturnChecker(mon, meta)
     tap = Tap(meta, mon)
     arm = b.cores[0].arm
+    ttap = TranslateTap(b, 0)
     intc = M.device_at(arm, G.INTC)
     state = {'grants': 0}
 
@@ -565,7 +567,7 @@ def gen_align(rng):
     te = rng.getrandbits(1)
     mode = rng.choice(['usr', 'usr', 'sys', 'svc', 'svc', 'irq', 'fiq', 'und'])
     D = G.DATA + 0x400
-    kind = rng.choice(['ldr', 'str', 'ldrh', 'strh', 'ldrd', 'strd', 'ldm', 'stm', 'push', 'pop'] + (['push_w', 'pop_w'] if thumb else []))
+    kind = rng.choice(['ldr', 'str', 'ldrh', 'strh', 'ldrd', 'strd', 'ldm', 'stm', 'push', 'pop', 'ldrex', 'strex', 'ldrexh', 'strexh', 'ldrexd', 'strexd'] + (['push_w', 'pop_w'] if thumb else []))
     rt, rn = rng.randrange(0, 6), 7
     mis = rng.choice([1, 2, 3])
     a_bit = 1
@@ -579,6 +581,29 @@ def gen_align(rng):
         wb = int(w or not p)
         word = (T.ldst_t4(kind == 'ldr', rt, rn, off, p, 1, w, 2) if (p, w) != (1, 0) else (T.ldr_w if kind == 'ldr' else T.str_w)(rt, rn, off)) if thumb else A.ldst(kind == 'ldr', rt, rn, off, p=p, u=1, w=w)
         first = D + mis + (off if p else 0)
+    elif kind in ('ldrex', 'strex', 'ldrexh', 'strexh', 'ldrexd', 'strexd'):
+        # exclusive accesses: the address must be aligned to the size of the access (a doubleword for LDREXD/STREXD) whatever SCTLR.A says; a store-exclusive
+        # that faults writes neither memory nor its status register
+        size = {'h': 2, 'd': 8}.get(kind[-1], 4)
+        mis = rng.randrange(1, size)
+        if size == 2:
+            mis = 1
+        a_bit = rng.getrandbits(1)
+        rd = 6
+        if size == 8:
+            rt &= ~1
+            if rt == 0 and rng.random() < 0.3:
+                rt = 2
+        ld = kind.startswith('ldr')
+        if thumb:
+            word = {4: (0xE8500F00 | rn << 16 | rt << 12) if ld else (0xE8400000 | rn << 16 | rt << 12 | rd << 8),
+                    2: (0xE8D00F5F | rn << 16 | rt << 12) if ld else (0xE8C00F50 | rn << 16 | rt << 12 | rd),
+                    8: (0xE8D0007F | rn << 16 | rt << 12 | (rt + 1) << 8) if ld else (0xE8C00070 | rn << 16 | rt << 12 | (rt + 1) << 8 | rd)}[size]
+        else:
+            word = {4: (0xE1900F9F | rn << 16 | rt << 12) if ld else (0xE1800F90 | rn << 16 | rd << 12 | rt),
+                    2: (0xE1F00F9F | rn << 16 | rt << 12) if ld else (0xE1E00F90 | rn << 16 | rd << 12 | rt),
+                    8: (0xE1B00F9F | rn << 16 | rt << 12) if ld else (0xE1A00F90 | rn << 16 | rd << 12 | rt)}[size]
+        first = D + mis
     elif kind in ('ldrh', 'strh'):
         size = 2
         mis = 1
@@ -625,6 +650,8 @@ def gen_align(rng):
     mpu[0] = (1 | 31 << 1, 0, 3 << 8)
     m_bit = rng.getrandbits(1)
     also_denied = bool(m_bit) and rng.random() < 0.4
+    if 'ex' in kind:
+        also_denied = False          # (the pseudocode of the exclusive loads translates the address - SetExclusiveMonitors() - before MemA[] checks its alignment: no order is asserted)
     if kind == 'push_w' and not a_bit:
         also_denied = False          # known finding (PUSH.W T2 goes byte-wise when SCTLR.A=0): keep its one signature, do not stack a denial on top
     if also_denied:
@@ -639,7 +666,7 @@ def gen_align(rng):
             mpu[DREG] = (1 | 9 << 1, G.DATA + 0x400 - 0x200 if False else (G.DATA + 0x400) & ~0x3FF, (0 if dk == 'none' else 6) << 8)
     core, meta = _one_shot_case(rng, word, thumb, mode, te, regs, mpu, {}, arch=rng.choice([6, 7]))   # ARMv6 with U=1: unaligned MemA accesses fault like on ARMv7
     core['regs']['sys']['sctlr'] = G.sctlr_value(m=m_bit, a=a_bit, u=1, te=te, v=0, br=0 if also_denied else 1, ee=(core['regs']['sys']['sctlr'] >> 25) & 1)
-    return {'scenario': 'align', 'cores': [core], 'meta': meta, 'word': word, 'kind': kind, 'first': first, 'size': size, 'rn': rn, 'wb': wb, 'write': kind in ('str', 'strh', 'strd', 'stm', 'push', 'push_w'),
+    return {'scenario': 'align', 'cores': [core], 'meta': meta, 'word': word, 'kind': kind, 'first': first, 'size': size, 'rn': rn, 'wb': wb, 'write': kind in ('str', 'strh', 'strd', 'stm', 'push', 'push_w', 'strex', 'strexh', 'strexd'),
             'events': [], 'max_ticks': 200, 'also_denied': also_denied}
 
 
@@ -708,6 +735,7 @@ def run_revoke(case):
         vr = ViewRecorder(meta)
         rc = ReturnChecker(mon, meta)
         arm = b.cores[0].arm
+        TranslateTap(b, 0)
         intc = M.device_at(arm, G.INTC)
 
         def grant():
@@ -779,14 +807,21 @@ def gen_deny_sweep(item, rng, tier):
     devices = G.std_devices(high=False)
     G.set_data(devices[2], 0x700, bytes(rng.getrandbits(8) for _ in range(0x200)))
     mode = rng.choice(['usr', 'svc', 'svc', 'sys', 'irq'])
+    nullguard = rng.random() < 0.35
+    if nullguard:
+        # a NULL guard: the first 32 bytes of the address space are a no-access region of the highest priority (vectors high, so that nothing is ever
+        # fetched there); pointers at and just above 0, so that descending transfers end exactly at address 0 and ascending ones start there
+        mpu[DREG + 1] = (1 | 4 << 1, 0, rng.getrandbits(6))
     sys = dict(G.mpu_sys(mpu, nu=rng.getrandbits(1)))
-    sys['sctlr'] = G.sctlr_value(m=1, a=0, u=1, te=thumb, v=0, br=1, ee=0)
+    sys['sctlr'] = G.sctlr_value(m=1, a=0, u=1, te=thumb, v=int(nullguard), br=1, ee=0)
     regs = {'cpsr': G.random_cpsr(rng, cfg, mode=mode, thumb=thumb, e=0) | 0xC0, 'pc': G.CODE, 'sys': sys, 'R': G.random_regfile(rng, cfg), 'spsr': G.random_spsrs(rng, cfg, valid=True)}
     # pointers around the lower edge of the denied block: word-aligned, so that multi-word transfers start allowed and run into it, or start inside it
     ptrs = [SW_DENY + 4 * d for d in (-8, -4, -3, -2, -1, 0, 0, 1, 2, 4)] + [SW_DENY + 0x7F8, SW_DENY + 0x7FC, 4, 8, 0x10, SW_PRIV + 0x10, SW_PRIV + 0x41]
+    if nullguard:
+        ptrs = ptrs[:12] + [0, 0, 4, 8, 0xC, 0x1C, 0x20, 0x24, 0x3C, 1, 0xFFFFFFFC]
     force = {'it': 0, 'ctx': 9, 'thumb': thumb, 'ptr_regs': ptrs}
     core = {'config': cfg, 'devices': devices, 'regs': regs, 'words': src['words'], 'force': force, 'no_poke': []}
-    return {'scenario': 'deny_sweep', 'cores': [core], 'events': [], 'max_ticks': len(src['words']) + 2, 'stop_at_done': False, 'thumb': thumb}
+    return {'scenario': 'deny_sweep', 'nullguard': nullguard, 'cores': [core], 'events': [], 'max_ticks': len(src['words']) + 2, 'stop_at_done': False, 'thumb': thumb}
 
 
 class DenySweepObserver:
@@ -801,6 +836,10 @@ class DenySweepObserver:
             k = next(i for i in range(0x800) if mem[i] != self.mem[i])
             b.violate('mpu.deny', type(arm.executed_opcode).__name__, 'denied_bytes_written', 'word %#x (pc %#x, cpsr %#x) changed byte +%#x of the no-access block' % (
                 arm.opcode, rec['pre_pc'], rec['pre'][1], k))
+        nmem = getattr(b, 'pre_null', None)
+        if nmem is not None and not b.violations and M.peek(arm, 0, 32) != nmem:
+            b.violate('mpu.deny', type(arm.executed_opcode).__name__, 'denied_bytes_written', 'word %#x (pc %#x, cpsr %#x) changed the no-access block at address 0' % (
+                arm.opcode, rec['pre_pc'], rec['pre'][1]))
         pmem = getattr(b, 'pre_priv', None)
         if pmem is not None and rec['what'] == 'step' and not b.violations:
             now = M.peek(arm, SW_PRIV, 0x100)
@@ -857,11 +896,14 @@ def run_deny_sweep(case):
     class DenyBoard(StreamBoard):
         pre_mem = None
         pre_priv = None
+        pre_null = None
 
         def after_poke(self, ci):
             self.pre_mem = M.peek(self.cores[ci].arm, SW_DENY, 0x800)
             self.pre_priv = M.peek(self.cores[ci].arm, SW_PRIV, 0x100)
+            self.pre_null = M.peek(self.cores[ci].arm, 0, 32) if case.get('nullguard') else None
     b = DenyBoard(case, [])
+    TranslateTap(b, 0)
     mon = EntryMonitor(b, 0, report=False)
     b.observers = [mon, DenySweepObserver(mon, MPU.regions_from_arm(b.cores[0].arm))]
     b.run()
